@@ -96,6 +96,8 @@ Section Frame.
     induction p; simpl; intros Hw s k0 Hk; auto.
     - (* Wr *) unfold upd. destruct (String.eqb k0 k) eqn:E; auto.
       apply String.eqb_eq in E. subst. congruence.
+    - (* Del *) unfold upd. destruct (String.eqb k0 k) eqn:E; auto.
+      apply String.eqb_eq in E. subst. congruence.
     - (* Cp *) unfold upd. destruct (String.eqb k0 dst) eqn:E; auto.
       apply String.eqb_eq in E. subst. congruence.
     - (* Seq *) apply orb_false_iff in Hw. destruct Hw as [H1 H2].
@@ -133,6 +135,8 @@ Section ScanFacts.
     induction p; simpl; intros cur d d' H.
     - inversion H. apply sub_refl.
     - destruct (defd E cur d k); inversion H. apply sub_refl.
+    - destruct (String.eqb k CL); inversion H. split; simpl; auto.
+      intros. apply add_In. auto.
     - destruct (String.eqb k CL); inversion H. split; simpl; auto.
       intros. apply add_In. auto.
     - destruct (String.eqb dst CL); try discriminate.
@@ -234,6 +238,22 @@ Section Sound.
         * exists d. split; auto. exists A. auto.
       + subst v. exfalso. eapply Hnr. reflexivity.
     - (* Wr *) destruct (String.eqb k CL) eqn:Ek.
+      + subst v. exfalso. eapply Hnr. reflexivity.
+      + subst v. simpl. rewrite Hl.
+        assert (Hne : String.eqb CL k = false).
+        { rewrite String.eqb_sym. exact Ek. }
+        repeat split; auto.
+        * unfold upd. rewrite Hne. auto.
+        * unfold upd. rewrite Hne. auto.
+        * eexists. split; [reflexivity|].
+          exists (fun k' => k' = k \/ A k'). split.
+          -- intros k' Hk'. simpl in Hk'. destruct Hk' as [?|[?|[G|?]]].
+             ++ right. apply Hc. auto.
+             ++ right. apply Hc. auto.
+             ++ apply add_In in G. destruct G as [G|G]; [left; auto | right; apply Hc; auto].
+             ++ right. apply Hc. auto.
+          -- apply agree_upd. auto.
+    - (* Del *) destruct (String.eqb k CL) eqn:Ek.
       + subst v. exfalso. eapply Hnr. reflexivity.
       + subst v. simpl. rewrite Hl.
         assert (Hne : String.eqb CL k = false).
@@ -572,3 +592,113 @@ Proof.
   repeat (apply andb_true_iff in H; destruct H as [H ?]).
   apply String.eqb_eq in H. apply prog_eqb_eq in H1. apply IH in H0. subst. reflexivity.
 Qed.
+
+(* ------------------------------------------------------------------ what a call leaves behind in a key *)
+Lemma then1_assoc a b c : then1 a (then1 b c) = then1 (then1 a b) c.
+Proof. destruct a, b, c; reflexivity. Qed.
+
+Lemma e_then_in a b x y : e_in a x = true -> e_in b y = true -> e_in (then1 a b) (e_then x y) = true.
+Proof.
+  destruct x as [xu xw xd], y as [yu yw yd]; destruct a, b; simpl; intros H1 H2; subst; simpl;
+    repeat rewrite ?orb_true_r, ?orb_true_l, ?andb_true_r, ?andb_true_l; auto;
+    destruct xu, xw, xd; simpl in *; auto; discriminate.
+Qed.
+
+Lemma e_then_inv r x y : e_in r (e_then x y) = true ->
+  exists a b, e_in a x = true /\ e_in b y = true /\ r = then1 a b.
+Proof.
+  destruct x as [xu xw xd], y as [yu yw yd]; destruct r; simpl; intros H.
+  - apply andb_true_iff in H. destruct H. exists Untouched, Untouched. auto.
+  - apply orb_true_iff in H. destruct H as [H|H]; apply andb_true_iff in H; destruct H as [H1 H2].
+    + exists Written, Untouched. auto.
+    + destruct xu; [exists Untouched, Written; auto|].
+      destruct xw; [exists Written, Written; auto|].
+      destruct xd; [exists Deleted, Written; auto|]. discriminate.
+  - apply orb_true_iff in H. destruct H as [H|H]; apply andb_true_iff in H; destruct H as [H1 H2].
+    + exists Deleted, Untouched. auto.
+    + destruct xu; [exists Untouched, Deleted; auto|].
+      destruct xw; [exists Written, Deleted; auto|].
+      destruct xd; [exists Deleted, Deleted; auto|]. discriminate.
+Qed.
+
+Lemma e_union_l a x y : e_in a x = true -> e_in a (e_union x y) = true.
+Proof. destruct a; simpl; intros ->; auto. Qed.
+Lemma e_union_r a x y : e_in a y = true -> e_in a (e_union x y) = true.
+Proof. destruct a; simpl; intros ->; apply orb_true_r. Qed.
+
+Section LeakSound.
+  Variable V : Type.
+  Variable fw : nat -> key -> list V -> V.
+  Variable fb : list V -> nat -> bool.
+  Variable present : nat -> V -> bool.
+  Variable N : nat.
+  Variable k : key.
+  Variable des : nat -> bool.
+
+  Notation exec := (exec V fw fb present N).
+  Notation peff := (peff V fw fb present N k).
+
+  Definition eff_ok (p : prog) (s : st V) : Prop :=
+    match exec p s with
+    | Normal _ => e_in (peff p s) (fst (eff k des p)) = true
+    | Aborted f _ => des f = true -> e_in (peff p s) (snd (eff k des p)) = true
+    end.
+
+  Lemma star_closed na x y :
+    e_in x (e_union (e_one Untouched) na) = true -> e_in y (e_union (e_one Untouched) na) = true ->
+    e_in (then1 x y) (e_union (e_one Untouched) na) = true.
+  Proof. destruct y; simpl; auto. Qed.
+
+  Lemma eff_sound : forall p s, eff_ok p s.
+  Proof.
+    unfold eff_ok. induction p; intros s; simpl.
+    - reflexivity.
+    - reflexivity.
+    - destruct (String.eqb k0 k); reflexivity.
+    - destruct (String.eqb k0 k); reflexivity.
+    - destruct (String.eqb dst k); reflexivity.
+    - intros ->. reflexivity.
+    - (* Seq *)
+      specialize (IHp1 s). destruct (eff k des p1) as [na aa] eqn:E1. destruct (eff k des p2) as [nb ab] eqn:E2.
+      destruct (exec p1 s) as [s'|f s'] eqn:X1; simpl in *.
+      + specialize (IHp2 s'). destruct (exec p2 s') eqn:X2; simpl in *.
+        * apply e_then_in; auto.
+        * intros Hd. apply e_union_r. apply e_then_in; auto.
+      + intros Hd. apply e_union_l. auto.
+    - (* Choice *)
+      destruct (eff k des p1) as [na aa] eqn:E1. destruct (eff k des p2) as [nb ab] eqn:E2.
+      destruct (fb (log s) (ctr s)).
+      + specialize (IHp1 (mk (sigma s) (log s) (S (ctr s)))).
+        destruct (exec p1 _); simpl in *; [apply e_union_l; auto | intros Hd; apply e_union_l; auto].
+      + specialize (IHp2 (mk (sigma s) (log s) (S (ctr s)))).
+        destruct (exec p2 _); simpl in *; [apply e_union_r; auto | intros Hd; apply e_union_r; auto].
+    - (* Loop *)
+      destruct (eff k des p) as [na aa] eqn:E1. simpl.
+      set (star := e_union (e_one Untouched) na).
+      assert (G : forall n s,
+                 match iter_loop V fb (exec p) n s with
+                 | Normal _ => e_in (iter_eff V fb (exec p) (peff p) n s) star = true
+                 | Aborted f _ => des f = true ->
+                     e_in (iter_eff V fb (exec p) (peff p) n s) (e_then star aa) = true
+                 end); [|apply G].
+      clear s. induction n as [|n IHn]; intros s; simpl.
+      + reflexivity.
+      + destruct (fb (log s) (ctr s)); [|reflexivity].
+        specialize (IHp (mk (sigma s) (log s) (S (ctr s)))).
+        destruct (exec p _) as [s''|f s''] eqn:X; simpl in *.
+        * specialize (IHn s''). destruct (iter_loop V fb (exec p) n s'') eqn:Y.
+          -- apply star_closed; auto. apply e_union_r. auto.
+          -- intros Hd. specialize (IHn Hd). apply e_then_inv in IHn.
+             destruct IHn as (a & b & Ha & Hb & ->). rewrite then1_assoc.
+             apply e_then_in; auto. apply star_closed; auto. apply e_union_r. auto.
+        * intros Hd. specialize (IHp Hd).
+          replace (peff p _) with (then1 Untouched (peff p (mk (sigma s) (log s) (S (ctr s)))))
+            by (destruct (peff p _); reflexivity).
+          apply e_then_in; auto.
+    - (* IfComp *)
+      destruct (eff k des p) as [na aa] eqn:E1. simpl.
+      destruct (present c (sigma s CL)).
+      + specialize (IHp s). destruct (exec p s); simpl in *; auto. apply e_union_r. auto.
+      + reflexivity.
+  Qed.
+End LeakSound.
